@@ -97,6 +97,69 @@ def _attr_owner(c, attr: str) -> str:
     return c.qualname
 
 
+def _rebuilt_from_name(program: Program, run: Run) -> None:
+    import ast
+    from ..inline import inlined
+    from ..skel import BUILDER_CLASSES
+    term = program.cls("Term")
+    n = 0
+    seen = set()
+    for bn in BUILDER_CLASSES:
+        c = program.cls(bn)
+        names = []
+        for k in c.mro:
+            for nm, f in k.methods.items():
+                if f.is_builder and nm not in names:
+                    names.append(nm)
+        for nm in names:
+            f0 = c.resolve(nm)
+            f = inlined(program, f0, c)
+            params = set(f.params[1:]) | set(f.kwonly) | ({f.vararg} if f.vararg else set())
+            # names standing for (an element of) a parameter: loop variables over it, plain copies
+            carriers = set(params)
+            proj: dict[str, str] = {}        # local -> the carrier whose `.name` it holds
+            for _ in range(3):
+                for node in ast.walk(f.node):
+                    if isinstance(node, (ast.For, ast.comprehension)) and isinstance(node.target, ast.Name):
+                        it = node.iter
+                        if isinstance(it, ast.Name) and it.id in carriers:
+                            carriers.add(node.target.id)
+                        elif isinstance(it, ast.Tuple) and any(isinstance(x, ast.Name) and x.id in carriers for x in it.elts) or (
+                                isinstance(it, ast.Tuple) and any(isinstance(x, ast.Starred) and isinstance(x.value, ast.Name) and x.value.id in carriers for x in it.elts)):
+                            carriers.add(node.target.id)
+                    if isinstance(node, ast.Assign) and len(node.targets) == 1 and isinstance(node.targets[0], ast.Name):
+                        v = node.value
+                        if isinstance(v, ast.Name) and v.id in carriers:
+                            carriers.add(node.targets[0].id)
+                        if isinstance(v, ast.Attribute) and v.attr == "name" and isinstance(v.value, ast.Name) and v.value.id in carriers:
+                            proj[node.targets[0].id] = v.value.id
+            for node in ast.walk(f.node):
+                if not (isinstance(node, ast.Call) and isinstance(node.func, ast.Name)):
+                    continue
+                r = program.resolve_global(f.module, node.func.id)
+                if not (r and r[0] == "class" and (r[1] is term or r[1].is_subclass_of(term))):
+                    continue
+                n += 1
+                base = None
+                for a in list(node.args) + [k.value for k in node.keywords if k.arg in ("name",)]:
+                    if isinstance(a, ast.Attribute) and a.attr == "name" and isinstance(a.value, ast.Name) and a.value.id in carriers:
+                        base = a.value.id
+                    elif isinstance(a, ast.Name) and a.id in proj:
+                        base = proj[a.id]
+                if base is None:
+                    continue
+                keeps = any(k.arg == "alias" and any(isinstance(x, ast.Attribute) and x.attr == "alias" for x in ast.walk(k.value)) for k in node.keywords)
+                run.ob("C12/R7 a term handed to a builder call is kept with its alias", f"{c.qualname}.{nm}:{node.func.id}({base}.name)", keeps, where=f.loc(node))
+                key = f"C12/alias-dropped-on-rebuild:{f0.cls.qualname}.{nm}:{node.func.id}"
+                if not keeps and key not in seen:
+                    seen.add(key)
+                    run.finding(key, f"{f0.cls.qualname}.{nm} rebuilds the term it was given as `{ast.unparse(node)[:60]}` from its name alone: an alias set on that term "
+                                     f"(`{base}.as_('x')`) is gone before the statement is rendered, so the defining position prints no alias", where=f.loc(node), rule="R7")
+    run.analysed["term_constructions_in_builder_calls"] = n
+    if n < 10:
+        raise AnalysisError(f"instance count below floor: term constructions inside builder calls {n}")
+
+
 def check(program: Program, run: Run) -> None:
     run.explanation = (
         "Per-class render skeletons (symbolic evaluation of every Term subclass's effective get_sql, helpers inlined "
@@ -263,6 +326,10 @@ def check(program: Program, run: Run) -> None:
         for k in need:
             if not found[k]:
                 raise AnalysisError(f"anchor vanished: no defining slot over {k} found in {bn}.get_sql skeleton")
+
+    # ---- R7: a builder call that is handed a term keeps the term: rebuilding it from its name (`Field(term.name, ...)`)
+    # throws the alias the caller gave it away before any renderer sees it
+    _rebuilt_from_name(program, run)
 
     # ---- R4 references (judged inside the statement skeleton, i.e. with the context get_sql really passes)
     refs = [("QueryBuilder", "_group_sql", "_groupbys"), ("QueryBuilder", "_orderby_sql", "_orderbys"), ("_SetOperation", "_orderby_sql", "_orderbys")]
